@@ -91,6 +91,8 @@ func main() {
 		os.Exit(cmdRNL(os.Args[2:]))
 	case "r2i":
 		os.Exit(cmdR2I(os.Args[2:]))
+	case "e2r":
+		os.Exit(cmdE2R(os.Args[2:]))
 	case "list":
 		ids := []string{}
 		for id := range registry {
